@@ -5,6 +5,7 @@ import TapkeeVerif.Model.Laplacian
 import TapkeeVerif.Model.Diffusion
 import TapkeeVerif.Proofs.MatBridge
 import TapkeeVerif.Proofs.Laplacian
+import TapkeeVerif.Proofs.LaplacianDiffusion
 /-!
 # C09 — Laplacian Eigenmaps and Diffusion Map solve their stated spectral problems
 
@@ -20,7 +21,7 @@ adjacency, `W = adj + adjᵀ`: a mutual neighbour pair is counted **twice** (the
 comment is not what the code does).
 -/
 namespace TapkeeVerif.C09
-open TapkeeVerif TapkeeVerif.Laplacian Matrix
+open TapkeeVerif TapkeeVerif.Laplacian TapkeeVerif.Diffusion Matrix
 
 section laplacian
 variable {K : Type} [Field K] {N k : Nat}
@@ -108,6 +109,146 @@ example : ∀ i a, 0 ≤ exH i a := fun i a => by unfold exH; positivity
 example : (0 : Nat) < 2 := by decide
 /-- the mutual pair `0 ↔ 1` is counted twice (sum, not max): `L 0 1 = −(h 0 0 + h 1 0)` -/
 example : laplacianL exNb exH 0 1 = -(1 + 1 / 2) := by decide +kernel
+/-- a neighbour listed twice is counted twice, plus the reverse edge `0 → 2`: `L 2 0 = −((h 2 0 + h 2 1) + h 0 1)` -/
+example : laplacianL exNb exH 2 0 = -((1 / 3 + 1 / 4) + 1 / 2) := by decide +kernel
+/-- a one-directional edge `1 → 2` still appears in both `L 1 2` and `L 2 1` -/
+example : laplacianL exNb exH 1 2 = -(1 / 3) ∧ laplacianL exNb exH 2 1 = -(1 / 3) := by decide +kernel
+example : degrees exNb exH 0 = (1 + 1 / 2) + (1 / 2 + 1 / 3 + 1 / 4) := by decide +kernel
+example : (laplacianLD exNb exH).get 0 0 = 31 / 12 := by decide +kernel
+
+/-!
+## B. Diffusion matrix
+`K0 = kernel0 heat dist w`, `p = colSums K0`, `K1 = kernel1 heat dist w = normBy K0 p` (`= P⁻¹ K0 P⁻¹`),
+`q = qVec heat dist w = colSums K1`, `s = sVec heat sqrtO dist w = fun i => sqrtO (q i)`,
+`markov heat dist w i j = K1 i j / q i` (definitions: `Proofs/LaplacianDiffusion.lean`, unfolded by `rfl` below).
+-/
+section diffusion
+variable {K : Type} [Field K] {N : Nat}
+
+/-- the abbreviations used below are exactly these model terms -/
+theorem diffusion_abbreviations (heat sqrtO : K → K) (dist : Mat N N K) (w : K) :
+    kernel1 heat dist w = normBy (kernel0 heat dist w) (colSums (kernel0 heat dist w))
+    ∧ qVec heat dist w = colSums (kernel1 heat dist w)
+    ∧ sVec heat sqrtO dist w = (fun i => sqrtO (qVec heat dist w i))
+    ∧ markov heat dist w = (fun i j => kernel1 heat dist w i j / qVec heat dist w i) :=
+  ⟨rfl, rfl, rfl, rfl⟩
+
+/-- `compute_diffusion_matrix` returns `Q^{-1/2} (P⁻¹ K0 P⁻¹) Q^{-1/2}` -/
+theorem diffusion_is_normalised_operator (heat sqrtO : K → K) (dist : Mat N N K) (w : K) :
+    diffusionMatrix heat sqrtO dist w
+      = normBy (normBy (kernel0 heat dist w) (colSums (kernel0 heat dist w)))
+          (fun i => sqrtO (colSums (normBy (kernel0 heat dist w) (colSums (kernel0 heat dist w))) i)) :=
+  diffusionMatrix_unfold heat sqrtO dist w
+
+/-- entrywise: `T i j = K0 i j / (p i p j) / (s i s j)` -/
+theorem diffusion_entry (heat sqrtO : K → K) (dist : Mat N N K) (w : K) (i j : Fin N) :
+    diffusionMatrix heat sqrtO dist w i j
+      = kernel0 heat dist w i j / (colSums (kernel0 heat dist w) i * colSums (kernel0 heat dist w) j)
+          / (sVec heat sqrtO dist w i * sVec heat sqrtO dist w j) := by
+  rw [diffusionMatrix_eq]; rfl
+
+theorem sqrtQD_get (heat sqrtO : K → K) (dist : Mat N N K) (w : K) :
+    (sqrtQD heat sqrtO dist w).get = sVec heat sqrtO dist w :=
+  sqrtQD_get' heat sqrtO dist w
+
+/-- no hypothesis on `dist`: only the upper-triangle callback values are used, and mirrored -/
+theorem kernel0_symm (heat : K → K) (dist : Mat N N K) (w : K) (i j : Fin N) :
+    kernel0 heat dist w i j = kernel0 heat dist w j i :=
+  kernel0_symm' heat dist w i j
+
+/-- only the callback values `dist i j` with `i ≤ j` are read -/
+theorem kernel0_upper_only (heat : K → K) (dist dist' : Mat N N K) (w : K)
+    (h : ∀ i j, i ≤ j → dist i j = dist' i j) : kernel0 heat dist w = kernel0 heat dist' w := by
+  funext i j
+  unfold kernel0
+  by_cases hij : i ≤ j
+  · simp only [hij, if_true, h i j hij]
+  · simp only [hij, if_false, h j i (le_of_not_ge hij)]
+
+theorem diffusionMatrix_symm (heat sqrtO : K → K) (dist : Mat N N K) (w : K) (i j : Fin N) :
+    diffusionMatrix heat sqrtO dist w i j = diffusionMatrix heat sqrtO dist w j i :=
+  diffusionMatrix_symm' heat sqrtO dist w i j
+
+/-- the top eigenpair of the returned matrix is `(1, √q)` -/
+theorem diffusion_top_eigenpair (heat sqrtO : K → K) (dist : Mat N N K) (w : K)
+    (hs : ∀ i, sqrtO (qVec heat dist w i) * sqrtO (qVec heat dist w i) = qVec heat dist w i)
+    (hs0 : ∀ i, sqrtO (qVec heat dist w i) ≠ 0) :
+    (Mat.toM (diffusionMatrix heat sqrtO dist w)).mulVec (sVec heat sqrtO dist w) = sVec heat sqrtO dist w :=
+  diffusion_top heat sqrtO dist w hs hs0
+
+/-- `P = Q⁻¹ K1` is row-stochastic -/
+theorem diffusion_markov (heat : K → K) (dist : Mat N N K) (w : K) (i : Fin N) (hq : qVec heat dist w i ≠ 0) :
+    ∑ j, markov heat dist w i j = 1 :=
+  markov_row_sum heat dist w i hq
+
+/-- eigenvectors `φ` of the returned symmetric matrix give the right eigenvectors `ψ = Q^{-1/2} φ` of the diffusion
+    operator `P`, same eigenvalue -/
+theorem diffusion_conjugate (heat sqrtO : K → K) (dist : Mat N N K) (w : K)
+    (hs : ∀ i, sqrtO (qVec heat dist w i) * sqrtO (qVec heat dist w i) = qVec heat dist w i)
+    (hs0 : ∀ i, sqrtO (qVec heat dist w i) ≠ 0)
+    (φ : Fin N → K) (lam : K)
+    (hT : (Mat.toM (diffusionMatrix heat sqrtO dist w)).mulVec φ = lam • φ) :
+    (markov heat dist w).mulVec (fun i => φ i / sVec heat sqrtO dist w i)
+      = lam • (fun i => φ i / sVec heat sqrtO dist w i) :=
+  diffusion_conj heat sqrtO dist w hs hs0 φ lam hT
+
+end diffusion
+
+/-! Non-vacuity (B): three equidistant samples, `heat x = 1/(1 − 3x/5)` (positive and increasing on `x ≤ 0`,
+`heat 0 = 1`), width 1: `K0 = [[1, 5/8, 5/8], …]`, `p = 9/4`, `q = 4/9`, `s = 2/3`. -/
+
+def exHeat : ℚ → ℚ := fun x => 1 / (1 - 3 * x / 5)
+def exDist : Mat 3 3 ℚ := fun i j => if i = j then 0 else 1
+def exSqrt : ℚ → ℚ := fun x => if x = 4 / 9 then 2 / 3 else 0
+
+example : ∀ i, qVec exHeat exDist 1 i = 4 / 9 := by decide +kernel
+example : ∀ i, qVec exHeat exDist 1 i ≠ 0 := by decide +kernel
+example : ∀ i, exSqrt (qVec exHeat exDist 1 i) * exSqrt (qVec exHeat exDist 1 i) = qVec exHeat exDist 1 i := by
+  decide +kernel
+example : ∀ i, exSqrt (qVec exHeat exDist 1 i) ≠ 0 := by decide +kernel
+example : ∀ i j, diffusionMatrix exHeat exSqrt exDist 1 i j = if i = j then 4 / 9 else 5 / 18 := by decide +kernel
+/-- a non-trivial eigenpair meeting the hypothesis of `diffusion_conjugate` -/
+example : (Mat.toM (diffusionMatrix exHeat exSqrt exDist 1)).mulVec ![1, -1, 0] = (1 / 6 : ℚ) • ![1, -1, 0] := by
+  decide +kernel
+
+/-!
+## C. Diffusion-map coordinates
+`V` holds the `d+1` eigenvectors of the largest eigenvalues in ascending order (column `d` = the largest), `lam` their
+eigenvalues, `t` = `timesteps`.
+-/
+section coordinates
+variable {K : Type} [Field K] {N d : Nat}
+
+theorem npowK_eq_pow (x : K) (t : Nat) : npowK x t = x ^ t := npowK_eq_pow' x t
+
+/-- `dmPost = λ_c^t ψ_c(i) / ψ_0(i)` with `ψ = V / s` (for `s = √q`: the right eigenvectors of the diffusion operator) -/
+theorem dm_coordinates (V : Mat N (d + 1) K) (lam : Vec (d + 1) K) (t : Nat) (s : Vec N K) (hs : ∀ i, s i ≠ 0)
+    (i : Fin N) (c : Fin d) :
+    dmPost V lam t i c = lam c.castSucc ^ t * ((V i c.castSucc / s i) / (V i (Fin.last d) / s i)) :=
+  dmPost_coordinates V lam t s hs i c
+
+/-- `timesteps` enters only as the exponent of the eigenvalue of the same column -/
+theorem dm_timesteps_only_exponent (V : Mat N (d + 1) K) (lam : Vec (d + 1) K) (t : Nat) (i : Fin N) (c : Fin d) :
+    dmPost V lam t i c = dmPost V lam 0 i c * lam c.castSucc ^ t :=
+  dmPost_timesteps V lam t i c
+
+/-- if the last column is the trivial eigenvector `κ √q`, then `ψ_0` is the constant `κ` and the coordinates are
+    `λ_c^t ψ_c(i) / κ` (`κ ≠ 0` is not needed for the identity: both sides are `0` when `κ = 0`) -/
+theorem dm_coordinates_trivial (V : Mat N (d + 1) K) (lam : Vec (d + 1) K) (t : Nat) (s : Vec N K) (κ : K)
+    (hs : ∀ i, s i ≠ 0) (hκ : ∀ i, V i (Fin.last d) = κ * s i) (i : Fin N) (c : Fin d) :
+    V i (Fin.last d) / s i = κ ∧ dmPost V lam t i c = lam c.castSucc ^ t * (V i c.castSucc / s i) / κ :=
+  ⟨by rw [hκ i, mul_div_assoc, div_self (hs i), mul_one], dmPost_trivial V lam t s κ hκ i c⟩
+
+end coordinates
+
+/-! Non-vacuity (C): two samples, `d = 1`; the last column is `3 · s`. -/
+def exV : Mat 2 2 ℚ := fun i c => if c = 1 then 3 * ((i.1 : ℚ) + 1) else (if i = 0 then 5 else -7)
+def exS : Vec 2 ℚ := fun i => (i.1 : ℚ) + 1
+
+example : ∀ i, exS i ≠ 0 := by decide +kernel
+example : ∀ i, exV i (Fin.last 1) = 3 * exS i := by decide +kernel
+example : (3 : ℚ) ≠ 0 := by decide +kernel
+example : dmPost exV (fun _ => 1 / 2) 3 1 0 = (1 / 2) ^ 3 * (-7 / 2) / 3 := by decide +kernel
 
 -- SPECTRAL THEOREMS (appended by the spectral owner)
 
